@@ -233,7 +233,45 @@ func runC11(c *Ctx, r *Rec) {
 		}
 	}
 	if embedded == nil {
-		r.undecided("D3-rule-table", "cdcn/embedded-syntax", "", "no embedded rule table found in the parser")
+		// the same table written as a function: switch name { case "Collection": return "..." }
+		for _, fd := range c.allFuncDecls("cdcn") {
+			if fd.Body == nil || embedded != nil {
+				continue
+			}
+			ast.Inspect(fd.Body, func(x ast.Node) bool {
+				sw, ok := x.(*ast.SwitchStmt)
+				if !ok || sw.Tag == nil || !isStringType(info.TypeOf(sw.Tag)) {
+					return true
+				}
+				m := map[string]string{}
+				for _, cl := range sw.Body.List {
+					cc := cl.(*ast.CaseClause)
+					if len(cc.Body) != 1 {
+						continue
+					}
+					rs, ok := cc.Body[0].(*ast.ReturnStmt)
+					if !ok || len(rs.Results) != 1 {
+						continue
+					}
+					val, ok := constString(info, rs.Results[0])
+					if !ok {
+						continue
+					}
+					for _, ke := range cc.List {
+						if k, ok := constString(info, ke); ok {
+							m[k] = val
+						}
+					}
+				}
+				if _, has := m["Collection"]; has {
+					embedded = m
+				}
+				return true
+			})
+		}
+	}
+	if embedded == nil {
+		r.skip("D3-rule-table", "cdcn/embedded-syntax", "", "no embedded rule table (a map or a switch from rule names to rule texts) found in the parser")
 	} else {
 		var rn []string
 		for n := range rules {
